@@ -86,6 +86,18 @@ Fixpoint go_unpack (tw w : N) (n : nat) (x : N) : list N :=
   | S m => ((x mod 2 ^ w) mod 2 ^ tw) :: go_unpack tw w m (x / 2 ^ w)
   end.
 
+(** The same values computed 8 at a time: 8 values of [w] bits are exactly [w]
+    bytes, so value [8*g + j] is field [j] of the bytes [w*g .. w*g+w-1]
+    (bytes beyond the end of [src] count as zeros).  This is how the models
+    evaluate an unpack of [8*groups] values: the numbers stay small. *)
+Fixpoint go_unpack_chunks (tw w : N) (groups : nat) (src : bytes) : list N :=
+  match groups with
+  | O => []
+  | S g =>
+      go_unpack tw w 8 (of_le (firstn (N.to_nat w) src))
+        ++ go_unpack_chunks tw w g (skipn (N.to_nat w) src)
+  end.
+
 (** [l[:n]] and [l[n:]] for an [n] already known to be at most [len(l)]; the
     comparison is made on [N] so that a huge count read from a malformed
     stream is never converted to a unary number. *)
